@@ -71,6 +71,13 @@ def run(ctx):
     for listen in (None, "unix"):
         for src in ("flag", "file", "stdin"):
             cases.append({"domain": "BÜCHER.Example", "digest": DIGESTS[4], "listen": listen, "source": src, "dim": "listener-x-source"})
+    if not ctx.quick:
+        # more digests (every leading byte class, counter-derived) and label counts
+        for i in range(64):
+            g = hashlib.sha256(b"digest-%d" % i).digest()
+            if i % 4 == 0:
+                g = bytes([i]) + g[1:]
+            cases.append({"domain": ".".join(["l%d" % j for j in range(1 + i % 5)] + ["example"]), "digest": g, "key": KEY_TYPES[i % 5], "dim": "more-digests"})
     cases.append({"domain": "example.org", "digest": DIGESTS[5], "alpns": ALPNS, "dim": "alpn-lists"})
     cases.append({"domain": "bücher.example", "digest": DIGESTS[3], "alpns": ALPNS, "listen": "unix", "dim": "alpn-lists"})
     # proofs rendered by the daemon itself
